@@ -67,7 +67,11 @@ P = {
    "200k (quick) / 3M (thorough) adversarial argument vectors for the four sub-commands run in-process under catch_unwind; 700/10k of them through the binary checking exit status 0/1, empty stdout + diagnostic on failure, library/binary agreement and stdout invariance under -v and RUST_LOG=trace; for generated repositories every git call zerv makes is failed in turn in 8 ways (about 90 fault runs per repository and command) and 8 special environment states are tried; a table check keeps the generator's flag set equal to `--help`.",
    'Single git faults only (multi-fault sequences are not enumerated). --llm-help excluded. Clock-derived 10-digit numbers are masked when comparing runs.',
    "§6 C13"),
- "C14": (False, "", "", "", "§6 C14"),
+ "C14": (True,
+   'metamorphic testing through the real binary: proptest-generated runs (stdin objects with day-boundary timestamps and time/hash-printing schemas and templates; real repositories) repeated under a matrix of environments; output must be byte-identical to the baseline',
+   '600 (quick) / 6000 (thorough) stdin cases and 100/1200 repositories are each run in a UTC/C baseline and in 12 environment variants (time zones from UTC-11 to UTC+14 incl. POSIX TZ strings and unset TZ, locales, another cwd, 59 unrelated variables, repetition), with RUST_LOG=debug, three concurrent processes, and (git) from inside the repository without -C; stdout, exit status and stderr must not change. Timestamps lie within 14 h of a UTC day boundary so any local-time use flips a printed field.',
+   "Cases are clock-free by construction (the documented wall-clock dev timestamp is excluded here and bracketed in C02/C04/C06). Only the image's locales exist; one machine/libc/rustc.",
+   "§6 C14"),
  "C15": (False, "", "", "", "§6 C15"),
  "C16": (True,
    "exhaustive small-universe enumeration + proptest random generation against an independent reference model of the sanitiser contract (differential), plus idempotence (metamorphic)",
